@@ -17,6 +17,7 @@ KINDS = {
     "map": "{k: v}", "emptymap": "{}", "nested": "[[{a: [1]}]]", "ts": "2001-12-14t21:59:43.10-05:00", "bin": "!!binary aGk=",
     "tagstr": "!!str 12", "tagint": "!!int \"12\"", "inf": ".inf", "big": "18446744073709551616", "long": "\"" + "n" * 400 + "\"",
     "alias": "*anc", "pct": "\"%\"", "at": "\"@\"", "bang": "\"!value \"",
+    "mbtoken": "\"%" + "ą" * 18 + "%\"", "mbfn": "\"%env(\\\"" + "ŻÓŁĆ_GĘŚLĄ_" * 4 + "\\\")%\"", "mbname": "\"" + "ż" * 40 + "\"", "mbref": "\"@" + "ó" * 20 + "\"",
 }
 
 # a configuration exercising every position; @@POS@@ markers are replaced one at a time
@@ -108,7 +109,10 @@ def run(tier, seed, replay):
     if replay:
         rp = json.load(open(replay))["replay"]
         specs = [dict(rp, id="0", dump=True, build_info="bi")]
+    import time as _t
+    _t0 = _t.time()
     obs = build.gx_run(tooldir, specs, timeout=900)
+    build.log("matrix real %.1fs" % (_t.time() - _t0))
     common.real_sanity(out, specs, obs, "C12")
     common.correspondence(out, env, specs, obs, "C12 type-confusion matrix")
     kinds = {}
@@ -124,6 +128,7 @@ def run(tier, seed, replay):
         cls = "accepted" if ex == 0 else ((ob.get("errors") or ["?"])[0].split(":")[0])
         kinds[cls] = kinds.get(cls, 0) + 1
         nontrivial.add(json.dumps(ob.get("errors"))[:300])
+    build.log("matrix done %.1fs" % (_t.time() - _t0))
     # ---- search over arbitrary bytes (not a proof): mutation fuzzing in-process
     secs = 20 if tier == "quick" else 300
     workers = 8 if tier == "quick" else 16
@@ -135,12 +140,16 @@ def run(tier, seed, replay):
                                       stdin=subprocess.PIPE, stdout=subprocess.PIPE, stderr=subprocess.PIPE, text=True, env=build.GOENV))
     execs = 0
     fuzz_dist = {"exit0": 0, "exit1": 0}
+    for p in procs:          # start all workers: each reads its corpus until EOF
+        p.stdin.write(feed)
+        p.stdin.close()
     for wk, p in enumerate(procs):
         try:
-            o, e = p.communicate(feed, timeout=secs + 120)
+            o = p.stdout.read()
+            e = p.stderr.read()
+            p.wait(timeout=secs + 120)
         except subprocess.TimeoutExpired:
             p.kill()
-            o, e = p.communicate()
             out.violation("hang:fuzz-worker", "a fuzz worker did not finish", {"stderr": e[-1000:]})
         shutil.rmtree("/dev/shm/gvfz_%d_%d" % (os.getpid(), wk), ignore_errors=True)
         got_summary = False
@@ -160,6 +169,7 @@ def run(tier, seed, replay):
                               {"files": c["files"], "patterns": c["patterns"], "output": c["output"], "flags": {k.lower(): v for k, v in (c.get("flags") or {}).items()}, "version": "1.2.3"})
         if not got_summary and p.returncode != 0:
             out.violation("crash:fuzz-worker", "the fuzz worker died (uncaught panic / fatal error): %s" % e[-600:], {"stderr": e[-3000:]})
+    build.log("fuzz done %.1fs" % (_t.time() - _t0))
     # ---- the CLI binary itself under a timeout and a memory limit (exit status and stderr as a process)
     nbin = 0
     tmp = tempfile.mkdtemp(prefix="gvc12_", dir="/dev/shm")
@@ -174,6 +184,7 @@ def run(tier, seed, replay):
                 out.violation("cli:" + name, "CLI binary: exit %d, stderr %r" % (p.returncode, p.stderr[-300:]), {"files": [{"path": "c.yaml", "content": text}], "patterns": ["c.yaml"], "output": "o.go", "flags": {}, "version": ""})
     finally:
         shutil.rmtree(tmp, ignore_errors=True)
+    build.log("cli done %.1fs" % (_t.time() - _t0))
     out.coverage.update({
         "evaluations": len(specs) + execs + nbin, "distinct_nontrivial": len(nontrivial),
         "rule": "type-confusion matrix: %d positions x %d YAML node kinds (+ container variants, deep nesting, 20k-character names, dense cycles, anchors/merge keys/duplicate keys/multi-doc) compared with the model; + mutation fuzzing of raw bytes (in-process, watchdog 20 s) and the CLI binary under timeout/ulimit; non-trivial = distinct diagnostics lists of the matrix" % (len([k for k in DEFAULTS if DEFAULTS[k]]), len(KINDS)),
